@@ -31,6 +31,7 @@ inductive Op where
   | blen (obj : Nat)                    -- ValueByteLength
   | appd (obj : Nat)                    -- append the element type's Default view
   | setd (obj i : Nat)                  -- set slot i to the element type's Default view
+  | appv (obj src : Nat)                -- append the view of src (shares its backing)
   deriving Repr
 
 inductive Out where
@@ -193,6 +194,10 @@ def stepV (h : HashFn) (st : VStore) : Op → VStore × Out
     | none => (st, .nohandle)
     | some o => (st, .num (serialize o.ty o.val).length)
   | .appd id => mutateV st id fun o => valAppend o.ty o.val (defaultVal (slotTyV o.ty 0))
+  | .appv id s =>
+    match st[s]? with
+    | none => (st, .nohandle)
+    | some so => mutateV st id fun o => valAppend o.ty o.val so.val
   | .setd id i => mutateV st id fun o => valSet o.ty o.val i (defaultVal (slotTyV o.ty i))
 
 /-! ### object machine (Model P) -/
@@ -337,6 +342,12 @@ def stepM (h : HashFn) (st : Store) : Op → Store × Out
          | .error e => (st, outOfErr e)
          | .ok en => mutateM h st id (Mut.append h o.ty o.node (defaultVal (slotTy o.ty 0)) en))
       | _ => (st, .err)
+  | .appv id s =>
+    match st[id]?, st[s]? with
+    | some o, some so =>
+      let x : Val := match viewVal so.ty so.node with | .ok v => v | .error _ => .none
+      mutateM h st id (Mut.append h o.ty o.node x so.node)
+    | _, _ => (st, .nohandle)
   | .setd id i =>
     match st[id]? with
     | none => (st, .nohandle)
